@@ -41,6 +41,18 @@ def _maxv_body(self, A, T, lo, hi):
 MINV = RecSpec('MINV', [AV, AT, 'int', 'int'], 'float', _minv_body)
 MAXV = RecSpec('MAXV', [AV, AT, 'int', 'int'], 'float', _maxv_body)
 
+def _wit_body(F, better):
+    def body(self, A, T, lo, hi):
+        x = _cell(A, T, hi - 2)
+        rest = F(A, T, lo, hi - 2)
+        return Ite(hi <= lo, SInt(-1), Ite(And(x.is_fin(), better(x, rest)), hi - 2, self(A, T, lo, hi - 2)))
+    return body
+
+
+# index of the cell at which the minimum / maximum is attained (-1 if there is no finite cell)
+WITMIN = RecSpec('WITMIN', [AV, AT, 'int', 'int'], 'int', _wit_body(MINV, lambda x, r: x < r))
+WITMAX = RecSpec('WITMAX', [AV, AT, 'int', 'int'], 'int', _wit_body(MAXV, lambda x, r: x > r))
+
 NANF = SFloat.const(float('nan'))
 
 
@@ -191,16 +203,6 @@ def register(reg):
             return [use(name, A=n.A, T=n.T, lo=n.lo, hi=n.hi - 2)]
         reg.add_lemma(Lemma(name, [('A', AV), ('T', AT), ('lo', 'int'), ('hi', 'int')],
                             requires=req, ensures=ens, proof=proof, decreases=lambda n: n.hi - n.lo, props=P))
-
-    def _wit_body(F, better):
-        def body(self, A, T, lo, hi):
-            x = _cell(A, T, hi - 2)
-            rest = F(A, T, lo, hi - 2)
-            return Ite(hi <= lo, SInt(-1), Ite(And(x.is_fin(), better(x, rest)), hi - 2, self(A, T, lo, hi - 2)))
-        return body
-
-    WITMIN = RecSpec('WITMIN', [AV, AT, 'int', 'int'], 'int', _wit_body(MINV, lambda x, r: x < r))
-    WITMAX = RecSpec('WITMAX', [AV, AT, 'int', 'int'], 'int', _wit_body(MAXV, lambda x, r: x > r))
 
     mk_attained_lemma('MINV_attained', MINV, WITMIN, float('inf'))
     mk_attained_lemma('MAXV_attained', MAXV, WITMAX, float('-inf'))
